@@ -7,7 +7,7 @@ power of every component and the architecture totals.  Binding B: the harness bu
 (every component has integer area and leak_power), runs Spec.calculate_component_costs() and compares
 Arch.per_component_total_area / per_component_total_leak_power / total_area / total_leak_power exactly.
 
-Role A (see checks/c25.py role_a): ArchNode.iterate_hierarchically with its shared parent list and
+Role A (see checks/c25.py RoleA): ArchNode.iterate_hierarchically with its shared parent list and
 the fanout loop of calculate_component_costs are model-checked as actions; TLC shows that the
 variants "Compute leaves are appended to the shared list" and "own fanout is not multiplied in"
 each violate CostsCorrect, and that the variant without both satisfies it.  For every tree TLC also
@@ -19,7 +19,6 @@ C26/other/... .
 from __future__ import annotations
 
 import json
-from fractions import Fraction
 
 from harness.core import Check, frac
 from checks import c25 as base
@@ -129,22 +128,22 @@ def compare26(rec, mode=None):
 
 
 def nontrivial26(rec):
-    """at least one component has more than one instance, and the tree has a spatial fanout > 1 on a node
-    that is NOT above every component (position matters)"""
-    multi = any(c["inst"] > 1 for c in rec["comps"])
+    """some component has more than one instance and the components do not all have the same count"""
     insts = {c["inst"] for c in rec["comps"]}
-    return multi and len(insts) > 1
+    return max(insts) > 1 and len(insts) > 1
 
 
 def run(ck: Check):
-    ck.rule = ("trees are enumerated by TLC from spec/ArchTree.tla (every well-formed tree with <= 4 nodes over all "
-               "six kinds and fanouts {1,2,3} on every leaf incl. Compute; every tree shape with 5..7 nodes over "
-               "Memory(x2)/Compute(x3)/Fork/Hierarchical; thorough: also all 5-node trees over the full alphabet and "
-               "all 8-node shapes) or drawn with -simulate (6..12 nodes, depth <= 4); expected instances/totals = "
-               "ArchTree!Instances evaluated by TLC; each tree is built from the real classes with integer area and "
-               "leak_power per component, calculate_component_costs is run (on the raw or on the evaluated Spec, chosen "
-               "by the case) and all per-component and architecture totals are compared exactly. Non-trivial = some "
-               "component has > 1 instance and not all components have the same instance count; distinct by tree.")
+    ck.rule = ("trees are enumerated by TLC from spec/ArchTree.tla (quick: every well-formed tree with <= 4 nodes over "
+               "all six kinds with fanouts {1,2} on Memory/Toll/Container and {1,3} on Compute, every 5-node tree shape "
+               "over Memory(x2)/Compute(x3)/Fork/Hierarchical; thorough: <= 4 nodes with fanouts {1,2,3} everywhere, "
+               "every 5-node tree over all six kinds, every shape with 5, 6 and 7 nodes) or drawn with -simulate "
+               "(6..12 nodes, depth <= 4, fanouts {1,2,3}; counts per generator under 'generators'); expected "
+               "instances/totals = ArchTree!Instances evaluated by TLC; each tree is built from the real classes with "
+               "integer area and leak_power per component, calculate_component_costs is run (on the raw or on the "
+               "evaluated Spec, chosen by the case) and all per-component and architecture totals are compared "
+               "exactly. Non-trivial = some component has > 1 instance and not all components have the same instance "
+               "count; distinct by tree.")
     ck.trusted += ["structural translation preorder (kind, fanout, depth) list -> nested Arch objects "
                    "(checks/c25.py build_arch_nodes)",
                    "exact conversion of the implementation's int/float totals to rationals (harness.core.frac)"]
